@@ -651,4 +651,16 @@ theorem noisy_image_grid_is_detector_grid (ops : List NTOp) (st : NTSt)
 
 example : (({} : NTSt).acc = none ∨ ({} : NTSt).acc = some .detector) := Or.inl rfl
 
+/-! ### Linear accumulation in time (session 4) -/
+
+/-- **Time-additivity of an exposure**: integrating the same light with the same weight for `dt₁` and then for `dt₂`
+accumulates exactly what one integration of `dt₁ + dt₂` accumulates, after any pending integrations `l`. -/
+theorem integrate_split_time (g : Geom) (l : List (List K × K × K)) (p : List K) (dt₁ dt₂ w : K) :
+    sumCharges g (l ++ [(p, dt₁, w), (p, dt₂, w)]) = sumCharges g (l ++ [(p, dt₁ + dt₂, w)]) := by
+  have e : l ++ [(p, dt₁, w), (p, dt₂, w)] = (l ++ [(p, dt₁, w)]) ++ [(p, dt₂, w)] := by simp
+  rw [e, sumCharges_snoc, sumCharges_snoc, sumCharges_snoc, vadd_assoc_det, ← charge_add_dt]
+
+example : sumCharges (Geom.uniform [2] 1) ([] ++ [(([1, 2] : List Rat), (1/2 : Rat), (1 : Rat)), ([1, 2], 1/4, 1)]) = [3/4, 3/2] := by
+  decide +kernel
+
 end HcipyVerif.Detector
